@@ -79,6 +79,8 @@ def _exec(args):
         for op in ('and', 'or', 'xor'):
             out.append(x_bits.observe_bitwise(fx, np, ['C18'], op, t, [rng.choice(inr)], ty=ty, cys=rng.choice([ly, hy, rng.randint(ly, hy)]), scalar=True))
             out.append(x_bits.observe_bitwise(fx, np, ['C18'], op, t, inr[:6], mask=rng.getrandbits(w), side=rng.choice(['left', 'right'])))
+        from .bits import wide_nd_and_inplace
+        out += wide_nd_and_inplace(fx, np, 'C18', rng, t, ty)
         # (6) the indicator: exactly when n_word >= 64, however the object was obtained and whatever happened to it since
         out.append(_indicator(fx, np, rng))
     return [o for o in out if o is not None]
